@@ -765,7 +765,7 @@ def processLine (st : DState) (raw : String) : DState :=
               (out.push s!"DIFF {st.line} loss-model {lhs} unsynced tail outside the head segment: bases {outside} head={headBase}", 1)
             else (out, 0)
           { st with out := out, viols := st.viols + vs.length, diffs := st.diffs + nd,
-                    counts := bump (bump st.counts "loss.img") (if outside.isEmpty then "loss.model:head-only" else "loss.model:OUTSIDE") }
+                    counts := bump (bump st.counts ("loss.img:" ++ restOps.headD "?")) (if outside.isEmpty then "loss.model:head-only" else "loss.model:OUTSIDE") }
         else
         if op0 = "fr.open" then { st with counts := bump st.counts "fr.open" }
         else if op0 = "fr.cold" then
